@@ -172,7 +172,8 @@ def nodes(s, depth=0):
 
 # ------------------------------------------------------------------ classifiers (by input shape)
 def has_nan(s, depth=0):
-    """F10: some float parameter of the schema (at any depth) is NaN."""
+    """Some float parameter of the schema (at any depth) is NaN (reported in replays; NaN
+    parameters get no special treatment: two NaN parameters are the same declaration)."""
     if depth > 40:
         return False
     for _, v in registry(s):
@@ -447,12 +448,13 @@ SEED_FAMILIES = [
      "schema.list([schema.int, ...])", "schema.list([schema.alias('x', schema.any), schema.int])"],
     ["schema.dict({'a': schema.list([schema.any, schema.int, ...])})", "schema.dict({'a': schema.list([..., schema.int, ...])})",
      "schema.dict({'a': schema.list([schema.any(schema.any), schema.int, ...])})"],
-    # F10 shapes: NaN parameters directly, under schema-valued props, inside containers
+    # NaN parameters directly, under schema-valued props, inside containers (must behave like any other)
     ["schema.float(float('nan'))", "schema.float.min(float('nan'))", "schema.float(1.0)",
      "schema.list(schema.float(float('nan')))", "schema.list([schema.float(float('nan'))])",
      "schema.dict({'a': schema.float.max(float('nan'))})", "schema.any(schema.float(float('nan')))",
      "schema.alias('n', schema.float(float('nan')))", "fwd(schema.float(float('nan')))",
-     "schema.list([schema.list(schema.float(float('nan')))])"],
+     "schema.list([schema.list(schema.float(float('nan')))])", "schema.float.max(float('nan'))",
+     "schema.float(float('nan')).precision(2)", "schema.float.min(float('nan')).max(float('nan'))", "schema.float"],
     # equal although written differently
     ["schema.float(0.0)", "schema.float(-0.0)", "schema.float.min(0.0).max(-0.0)", "schema.float.min(-0.0).max(0.0)",
      "schema.float(0.0).precision(2)", "schema.float(-0.0).precision(2)"],
@@ -583,7 +585,7 @@ def run(ctx):
     oracle = 0
 
     def report(kind, what, members, fid_shape, value=Nil, observed=None, expected=None):
-        """fid_shape: None, or ("F10"|"F19") when the input has the shape of that finding."""
+        """fid_shape: None, or "F19" when the input has the shape of that finding."""
         rp = {"kind": "input", "check": kind, "schemas": [m.src for m in members],
               "labels": [m.label for m in members], "observed": observed, "expected": expected,
               "theorem_or_suite": "C15 direct oracle: " + kind}
@@ -631,7 +633,7 @@ def run(ctx):
         # reflexive (one object), != is the negation, symmetric
         for i in range(n):
             if E[i][i] is not True:
-                report("reflexive", "s == s is False", [fam[i]], "F10" if nan[i] else None,
+                report("reflexive", "s == s is False", [fam[i]], None,
                        observed="s == s -> False", expected="True")
             for j in range(n):
                 if NE[i][j] != (not E[i][j]):
@@ -648,7 +650,7 @@ def run(ctx):
             stats["rebuild_pairs"] += 1
             if ab is not True or ba is not True:
                 report("rebuild", "two builds of one declaration are unequal", [fam[i], fam[i]],
-                       "F10" if nan[i] else None, observed=f"{ab!r} / {ba!r}", expected="True both ways")
+                       None, observed=f"{ab!r} / {ba!r}", expected="True both ways")
         # transitive
         eqs = [[j for j in range(n) if j != i and E[i][j]] for i in range(n)]
         for i in range(n):
@@ -770,7 +772,7 @@ def run(ctx):
              "its independent rebuild, single-parameter variants at every nesting level (every prop changed/dropped/"
              "added/stored as Nil; one element/key/alternative dropped, added, replaced; `...` markers, optional flags, "
              "relaxed entry toggled; key order; 1/True; 0.0/-0.0), strangers, and %d fixed seed families with the shapes "
-             "of F10/F19. All ordered pairs and all triples inside a family go through the direct oracle (reflexive, "
+             "of F19 and NaN parameters. All ordered pairs and all triples inside a family go through the direct oracle (reflexive, "
              "symmetric, != negation, rebuild, transitive, same verdicts on the probe set, s == v iff validates). "
              "Correspondence: base-vs-member pairs plus a sample of the others, same-object cases, (schema, value) "
              "cases; distinct by canonical Coq term." % (depth, len(SEED_FAMILIES)),
